@@ -610,6 +610,19 @@ class Trial:
         detail = {"op": op, "op_index": len(self.ops) - 1, "fault": fault, "fired": ex.fired,
                   "subject": "killed" if ex.killed else s_out.as_dict(), "twin": t_out.as_dict(),
                   "state": where, "integrity": after.integrity}
+        if op == "load-again" and t_out.ok:
+            # Only possible when the first load never got as far as creating tables.  Loading is not one
+            # of C20's steps ("a step after loading") and is not atomic by design (the schema script
+            # commits): nothing is demanded of it.  Whatever it leaves is the new starting point.
+            self.stats["load_again_succeeded_or_attempted_on_empty_file"] += 1
+            self.loaded_ok = (not ex.killed) and s_out.ok
+            self.deferred = False
+            self.current = self.observe(False)
+            _copy_with_sidecars(self.db, self.base)
+            self.canon_cache.clear()
+            self.acked.clear()
+            self.ack_count.clear()
+            return ex, None
         # I1: all-or-nothing
         if after.integrity != "ok" or after.error:
             raise Violation("I1-integrity", dict(detail, error=after.error))
@@ -617,12 +630,6 @@ class Trial:
             raise Violation("I1-third-state", dict(detail, differs_from_pre=after.diff(pre)[:8],
                                                    differs_from_post=after.diff(post)[:8]))
         # I3: failed attempts and read-only commands leave no trace
-        if op == "load-again" and t_out.ok:
-            # only possible when the first load never created the schema; not a step of C20
-            self.stats["load_again_succeeded"] += 1
-            shutil.copyfile(self.db, self.base)
-            self.canon_cache.clear()
-            return ex, None
         no_trace = (not t_out.ok) or op in READ_ONLY
         if no_trace and post != pre:
             raise Violation("I3-fault-free-failed-or-read-only-attempt-left-trace",
@@ -1123,7 +1130,7 @@ TIERS = {
     # histories: (jobs, per job); fault-free share; sweeps: number of (dataset) samples per sweep case
     "quick": {"hist": (48, 6), "fault_free_jobs": 8, "sweeps": 1, "hot_sweeps": 1, "sweep_max": 260, "field_hist": 0,
               "large_sweeps": 1, "large_max": 28, "shards": 1, "large_shards": 2},
-    "thorough": {"hist": (1600, 10), "fault_free_jobs": 200, "sweeps": 16, "hot_sweeps": 8, "sweep_max": None, "field_hist": 4,
+    "thorough": {"hist": (1200, 10), "fault_free_jobs": 150, "sweeps": 10, "hot_sweeps": 6, "sweep_max": None, "field_hist": 4,
                  "large_sweeps": 4, "large_max": 320, "shards": 8, "large_shards": 16},
 }
 
